@@ -66,6 +66,8 @@ ASSUMPTIONS = [
     'numerals have at most ~60 digits (binary64 overflow / underflow of float() is not modelled)',
     'the handlers are run with the default verbosity; warnings are silenced',
 ]
+TECHNIQUE = ('Lean 4 proof over a hand-written model whose tables (bounds expression, extension table from the AST of guess_format, argparse '
+             'choices) are regenerated from the code on every run + differential correspondence with the implementation')
 LEVEL_NOTE = ('Proved: the bounds grammar (full-text match, exact values, unambiguity), the decision order of '
               'geometry_argument, the export format tables against the live writer table, the exit-status mapping and '
               'the validate-before-write order of the three handlers. Partial: CLI output = library result is compared at '
